@@ -115,14 +115,25 @@ def parse_playback(out):
     return tests
 
 
+def norm_desc(d):
+    """Kani stringifies the message tokens: a `concat!("a", "b")` tag arrives as
+    the token text; join its string pieces."""
+    d = d.strip()
+    if "concat" in d and "!" in d:
+        parts = re.findall(r'\\?"((?:[^"\\])*)\\?"', d)
+        if parts:
+            return "".join(parts)
+    return d.strip('"')
+
+
 def classify(ch):
     """Return (category, tag, region). category in:
     tagged, nan (ignored), unwind, unsupported, safety, cover, other"""
-    d = ch["desc"].strip('"')
-    m = TAG_RE.match(ch["desc"])
+    d = norm_desc(ch["desc"])
+    m = TAG_RE.match(d)
     if m:
         return ("tagged", m.group(1), m.group(2))
-    m = TAG_NOREGION_RE.match(ch["desc"])
+    m = TAG_NOREGION_RE.match(d)
     if m:
         return ("tagged", m.group(1), "base")
     if ch["cls"] == "cover":
